@@ -511,6 +511,9 @@ impl Value {
                         "The value's size ({}) is not the right length for a string UUID (>=32)",
                         string.len()
                     ))
+                } else if let Err(e) = Uuid::parse_str(string) {
+                    // The string is written as it is, so it has to be readable as a UUID
+                    Some(format!("The value is not a UUID: {e}"))
                 } else {
                     None
                 }
